@@ -101,6 +101,16 @@ func parseQuantHyp(line string) (*quantHyp, bool) {
 			q.guards = append(q.guards, as[0])
 			cur = as[1]
 			continue
+		case op == "=" && len(as) == 2 && (strings.HasPrefix(strings.TrimSpace(as[1]), "(forall ") || strings.HasPrefix(strings.TrimSpace(as[0]), "(forall ")):
+			// b == (forall x. P): use the direction  b => forall x. P  (weaker, hence sound)
+			if strings.HasPrefix(strings.TrimSpace(as[1]), "(forall ") {
+				q.guards = append(q.guards, as[0])
+				cur = strings.TrimSpace(as[1])
+			} else {
+				q.guards = append(q.guards, as[1])
+				cur = strings.TrimSpace(as[0])
+			}
+			continue
 		case op == "forall" && len(as) == 2:
 			q.names, q.sorts = parseBinders(as[0])
 			q.body = stripPattern(as[1])
